@@ -305,6 +305,18 @@ class Perm(IntFlag):
     W = 2
 
 
+class SubFloat(float):
+    """A scalar whose type is a subclass of a supported scalar type (the stand-in for numpy.float64)."""
+
+
+class SubStr(str):
+    pass
+
+
+class SubInt(int):
+    pass
+
+
 def _val_run(self):
     from .events import emit
     import os
